@@ -269,5 +269,6 @@ fn names_part(ctx: &Ctx) {
     ctx.set("named_trees", json!({"pool": pool.len(), "subsets": subs.len(), "subsets_done": res.processed, "nodes_max": params.max_nodes, "histories": evals}));
     if !res.complete {
         ctx.set("exhaustive", json!(false));
+        ctx.push("caps", json!("wall or memory budget reached in the part `named trees`: see its done / total counters"));
     }
 }
